@@ -11,6 +11,8 @@
 from __future__ import annotations
 
 import ast
+import copy
+import re
 
 from ..gen import REPO, Untranslatable
 from ..pyexpr import parse_file
@@ -173,6 +175,72 @@ class _Scan:
                         self.writes.append((qual, "class", ast.unparse(n.args[1]) if len(n.args) > 1 else "?", "setattr"))
 
 
+def _pure_return_tree(stmts) -> bool:
+    """only `if` / `return` / `raise` (no statement that does anything): a choice between result expressions"""
+    for st in stmts:
+        if isinstance(st, (ast.Return, ast.Raise, ast.Pass)):
+            continue
+        if isinstance(st, ast.Expr) and isinstance(st.value, ast.Constant):
+            continue
+        if isinstance(st, ast.If) and _pure_return_tree(st.body) and _pure_return_tree(st.orelse):
+            continue
+        return False
+    return True
+
+
+def _const(node) -> bool:
+    if node is None or isinstance(node, ast.Constant):
+        return True
+    if isinstance(node, (ast.Tuple, ast.List)):
+        return all(_const(e) for e in node.elts)
+    return isinstance(node, ast.UnaryOp) and _const(node.operand)
+
+
+def _skipping_returns(fn) -> int:
+    """number of `return`s that leave the function while statements that DO something would still follow (the shape of a
+    memo hit or a shortcut that skips steps).  Not counted: the return a path ends with; an early return of a constant
+    (`return None`); an early return whose continuation only chooses between result expressions — i.e. a conditional
+    expression written as `if …: return a` / `return b`, in whatever helper it lives."""
+    n = 0
+
+    def walk(stmts, cont, in_loop):
+        nonlocal n
+        for idx, st in enumerate(stmts):
+            after = list(stmts[idx + 1:]) + cont
+            if isinstance(st, ast.Return):
+                if in_loop or (after and not _const(st.value) and not _pure_return_tree(after)):
+                    n += 1
+            elif isinstance(st, ast.If):
+                walk(st.body, after, in_loop)
+                walk(st.orelse, after, in_loop)
+            elif isinstance(st, (ast.For, ast.While)):
+                walk(st.body, after, True)
+                walk(st.orelse, after, in_loop)
+            elif isinstance(st, ast.With):
+                walk(st.body, after, in_loop)
+            elif isinstance(st, ast.Try):
+                for blk in (st.body, st.orelse, st.finalbody):
+                    walk(blk, after, in_loop)
+                for h in st.handlers:
+                    walk(h.body, after, in_loop)
+    walk(_body(fn), [], False)
+    return n
+
+
+def _all_paths_end(stmts) -> bool:
+    """every path ends in `return` / `raise` (no implicit `return None` by falling off the end)"""
+    if not stmts:
+        return False
+    st = stmts[-1]
+    if isinstance(st, (ast.Return, ast.Raise)):
+        return True
+    if isinstance(st, ast.If):
+        return bool(st.orelse) and _all_paths_end(st.body) and _all_paths_end(st.orelse)
+    if isinstance(st, ast.With):
+        return _all_paths_end(st.body)
+    return False
+
+
 def _dedupe(rows):
     out = []
     for r in rows:
@@ -223,10 +291,10 @@ def state_tables() -> str:
         fn = (b if q.startswith("fill:") else a).funcs[q[5:] if q.startswith("fill:") else q]
         if any(isinstance(n, (ast.Yield, ast.YieldFrom)) for n in ast.walk(fn)):
             continue          # context manager
-        nret = sum(1 for n in ast.walk(fn) if isinstance(n, ast.Return))
-        exits.append((q, nret, isinstance(fn.body[-1], ast.Return)))
+        exits.append((q, _skipping_returns(fn), _all_paths_end(_body(fn))))
     exit_rows = ", ".join(f"({_q(q)}, {n}, {'true' if last else 'false'})" for q, n, last in exits)
-    return ("/-- every function on `forward`'s path: number of `return` statements, and whether the last statement is one -/\n"
+    return ("/-- every function on `forward`'s path: number of returns that skip statements (see `_skipping_returns`), and whether\n"
+            "every path ends in an explicit `return` / `raise` -/\n"
             f"def forward_exits : List (String × Nat × Bool) := [{exit_rows}]\n"
             "/-- translated from `direct/ssl/ssl.py`, `direct/ssl/mask_fillers.py`: every write to an object attribute, a class\n"
             "attribute, a module global or a mutable default, and every memoising decorator, with the function it occurs in -/\n"
@@ -250,32 +318,41 @@ def _txt(node) -> str:
     return ast.unparse(node).replace(" ", "")
 
 
-def _callables(node, data_names) -> list[str]:
-    """names of everything callable an expression refers to: called functions, method names, functions passed as values"""
+_HIGHER_ORDER = {"map": [0], "filter": [0], "reduce": [0], "functools.reduce": [0], "starmap": [0], "itertools.starmap": [0]}
+
+
+def _fname(f) -> str:
+    if isinstance(f, ast.Name):
+        return f.id
+    if isinstance(f, ast.Attribute):
+        base = f.value
+        if isinstance(base, ast.Name):
+            return f"{base.id}.{f.attr}"
+        if isinstance(base, ast.Attribute) and isinstance(base.value, ast.Name):
+            return f"{base.value.id}.{base.attr}.{f.attr}"
+        return "method:" + f.attr
+    if isinstance(f, ast.Lambda):
+        return "<lambda>"
+    return "call:" + ast.unparse(f)[:40]
+
+
+def _callables(node, data_names=()) -> list[str]:
+    """names of everything callable an expression uses: called functions / methods, and functions handed to `map` & co.
+    (names of data — the sample, loop indices, locals — are not callables and are not listed, whatever they are called)"""
     out = []
-    bases = {id(n.value) for n in ast.walk(node) if isinstance(n, ast.Attribute)}
     for n in ast.walk(node):
-        if isinstance(n, ast.Name) and id(n) in bases:
-            continue
         if isinstance(n, ast.Call):
-            f = n.func
-            if isinstance(f, ast.Name):
-                out.append(f.id)
-            elif isinstance(f, ast.Attribute):
-                base = f.value
-                if isinstance(base, ast.Name) and base.id not in data_names:
-                    out.append(f"{base.id}.{f.attr}")
-                elif isinstance(base, ast.Attribute) and isinstance(base.value, ast.Name) and base.value.id not in data_names:
-                    out.append(f"{base.value.id}.{base.attr}.{f.attr}")
-                else:
-                    out.append("method:" + f.attr)
-            else:
-                out.append("call:" + ast.unparse(f)[:40])
-        elif isinstance(n, ast.Name) and isinstance(n.ctx, ast.Load) and n.id not in data_names:
-            out.append(n.id)
-        elif isinstance(n, (ast.Lambda, ast.ListComp, ast.GeneratorExp, ast.SetComp, ast.DictComp)):
-            out.append("<comprehension>" if not isinstance(n, ast.Lambda) else "<lambda>")
-    # a called name appears twice (as Call.func and as Name): keep one
+            name = _fname(n.func)
+            if not (isinstance(n.func, ast.Attribute) and isinstance(n.func.value, ast.Name) and n.func.value.id in ("self", "cls")):
+                out.append(name)
+            for pos in _HIGHER_ORDER.get(name, []):
+                if len(n.args) > pos and isinstance(n.args[pos], (ast.Name, ast.Attribute, ast.Lambda)):
+                    out.append(_fname(n.args[pos]))
+            for kw in n.keywords:
+                if kw.arg == "key" and isinstance(kw.value, (ast.Name, ast.Attribute, ast.Lambda)):
+                    out.append(_fname(kw.value))
+        elif isinstance(n, ast.Lambda):
+            out.append("<lambda>")
     res = []
     for x in out:
         if x not in res:
@@ -283,13 +360,159 @@ def _callables(node, data_names) -> list[str]:
     return res
 
 
-def _seed_expr(scan: _Scan):
-    """(none-test text, value expression, [(helper qualname, return expression)]) of the seed handed to split_method"""
-    fwd = scan.funcs.get("MaskSplitter.forward")
-    if fwd is None:
+# ---- following private helpers: a helper whose body is a decision tree of returns is an expression ---------------
+class _Subst(ast.NodeTransformer):
+    def __init__(self, env):
+        self.env = env
+
+    def visit_Name(self, node):
+        if isinstance(node.ctx, ast.Load) and node.id in self.env:
+            return copy.deepcopy(self.env[node.id])
+        return node
+
+
+def _subst(node, env):
+    return _Subst(env).visit(copy.deepcopy(node)) if env else copy.deepcopy(node)
+
+
+def _body(fn):
+    b = list(fn.body)
+    if b and isinstance(b[0], ast.Expr) and isinstance(b[0].value, ast.Constant) and isinstance(b[0].value.value, str):
+        b = b[1:]
+    return b
+
+
+def _tree_expr(stmts):
+    """statements that form a decision tree of returns (if / else chains, early returns, single-assignment locals) as ONE
+    expression; None when the statements are not of that shape"""
+    if not stmts:
+        return None
+    st, rest = stmts[0], stmts[1:]
+    if isinstance(st, ast.Return):
+        return st.value if st.value is not None else ast.Constant(value=None)
+    if isinstance(st, ast.If):
+        a = _tree_expr(st.body)
+        b = _tree_expr(list(st.orelse) + rest) if st.orelse else _tree_expr(rest)
+        if a is None:
+            # the branch falls through to the rest
+            a = _tree_expr(list(st.body) + rest)
+        if a is None or b is None:
+            return None
+        return ast.IfExp(test=st.test, body=a, orelse=b)
+    if isinstance(st, ast.Assign) and len(st.targets) == 1 and isinstance(st.targets[0], ast.Name):
+        e = _tree_expr(rest)
+        return None if e is None else _subst(e, {st.targets[0].id: st.value})
+    if isinstance(st, ast.AnnAssign) and isinstance(st.target, ast.Name) and st.value is not None:
+        e = _tree_expr(rest)
+        return None if e is None else _subst(e, {st.target.id: st.value})
+    if isinstance(st, (ast.Pass,)) or (isinstance(st, ast.Expr) and isinstance(st.value, ast.Constant)):
+        return _tree_expr(rest)
+    return None
+
+
+def _bind(fn: ast.FunctionDef, call: ast.Call, bound_method: bool):
+    """parameter name -> argument expression of `call` (defaults for what is not passed)"""
+    params = fn.args.posonlyargs + fn.args.args
+    deco = [ast.unparse(d) for d in fn.decorator_list]
+    if bound_method and not any(d.endswith("staticmethod") for d in deco):
+        params = params[1:]
+    env = {}
+    defaults = fn.args.defaults
+    for p, d in zip(params[len(params) - len(defaults):], defaults):
+        env[p.arg] = d
+    for p, a in zip(params, call.args):
+        env[p.arg] = a
+    names = {p.arg for p in params + fn.args.kwonlyargs}
+    for kw in call.keywords:
+        if kw.arg in names:
+            env[kw.arg] = kw.value
+    for p, d in zip(fn.args.kwonlyargs, fn.args.kw_defaults):
+        if p.arg not in env and d is not None:
+            env[p.arg] = d
+    return env
+
+
+def _helper_of(scan: _Scan, call: ast.Call):
+    """the class's own method / the module's own function a call goes to, else None"""
+    f = call.func
+    if isinstance(f, ast.Attribute):
+        root = ast.unparse(f.value)
+        if root in ("self", "cls", "type(self)", "self.__class__") or root in scan.classes:
+            hits = [q for q in scan.funcs if "." in q and q.split(".")[-1] == f.attr]
+            if len(hits) == 1:
+                return scan.funcs[hits[0]], True
+    elif isinstance(f, ast.Name) and f.id in scan.funcs:
+        return scan.funcs[f.id], False
+    return None
+
+
+class _Inline(ast.NodeTransformer):
+    def __init__(self, scan, depth):
+        self.scan, self.depth = scan, depth
+
+    def visit_Call(self, node):
+        self.generic_visit(node)
+        if self.depth > 4:
+            return node
+        h = _helper_of(self.scan, node)
+        if h is None or h[0].name in ("split_method", "forward"):
+            return node
+        fn, bound = h
+        e = _tree_expr(_body(fn))
+        if e is None:
+            return node
+        return _Inline(self.scan, self.depth + 1).visit(_subst(e, _bind(fn, node, bound)))
+
+
+def _inline(scan, node, depth=0):
+    return _Inline(scan, depth).visit(copy.deepcopy(node))
+
+
+def _local_env(fn: ast.FunctionDef):
+    """single-assignment locals of a function (name -> value), for hoisted sub-expressions"""
+    count, val = {}, {}
+    for n in ast.walk(fn):
+        if isinstance(n, ast.Name) and isinstance(n.ctx, ast.Store):
+            count[n.id] = count.get(n.id, 0) + 1
+    for n in ast.walk(fn):
+        if isinstance(n, ast.Assign) and len(n.targets) == 1 and isinstance(n.targets[0], ast.Name) and count.get(n.targets[0].id) == 1:
+            val[n.targets[0].id] = n.value
+    return val
+
+
+def _resolve(scan: _Scan, qual: str, expr, depth=0):
+    """`expr` (inside method `qual`) in terms of what `MaskSplitter.forward` sees: helpers inlined, parameters of private
+    helpers replaced by the arguments at their call sites, hoisted single-assignment locals substituted.  -> list of
+    alternatives (one per call site)"""
+    fn = scan.funcs[qual]
+    params = {a.arg for a in fn.args.posonlyargs + fn.args.args + fn.args.kwonlyargs} - {"self", "cls"}
+    loc = {k: v for k, v in _local_env(fn).items() if k not in params}
+    for _ in range(3):
+        used = {n.id for n in ast.walk(expr) if isinstance(n, ast.Name)}
+        env = {k: v for k, v in loc.items() if k in used and not any(isinstance(c, (ast.Yield, ast.Await)) for c in ast.walk(v))}
+        if not env:
+            break
+        expr = _subst(expr, env)
+    expr = _inline(scan, expr)
+    used = {n.id for n in ast.walk(expr) if isinstance(n, ast.Name)}
+    if qual.endswith(".forward") or depth > 4 or not (used & params):
+        return [expr]
+    name = qual.split(".")[-1]
+    out = []
+    for q, g in scan.funcs.items():
+        if q == qual:
+            continue
+        for c in ast.walk(g):
+            if isinstance(c, ast.Call) and isinstance(c.func, ast.Attribute) and c.func.attr == name \
+                    and ast.unparse(c.func.value) in ("self", "cls", "type(self)", "self.__class__"):
+                out += _resolve(scan, q, _subst(expr, _bind(fn, c, True)), depth + 1)
+    return out or [expr]
+
+
+def _seed_sites(scan: _Scan):
+    """every `self.split_method(mask, acs_mask, <seed>)` reachable from forward: (method it occurs in, seed expression)"""
+    if "MaskSplitter.forward" not in scan.funcs:
         raise Untranslatable("MaskSplitter.forward not found")
-    # the seed argument may be computed in a helper that forward calls per sample (`self._split_sample(…)`): follow
-    # `self.split_method(…)` calls in forward and in every method forward reaches
     seen, todo, found = set(), ["MaskSplitter.forward"], []
     while todo:
         q = todo.pop(0)
@@ -310,67 +533,53 @@ def _seed_expr(scan: _Scan):
     return found
 
 
-def _inline_helpers(scan: _Scan, node, depth=0):
-    """return expressions of the class's own helpers that `node` calls (transitively)"""
-    out = []
-    if depth > 3:
-        return out
-    for n in ast.walk(node):
-        if isinstance(n, ast.Call) and isinstance(n.func, ast.Attribute) and isinstance(n.func.value, (ast.Name, ast.Call)):
-            root = ast.unparse(n.func.value)
-            if root in ("self", "cls", "type(self)", "self.__class__") or root in scan.classes:
-                for q, fn in scan.funcs.items():
-                    if "." in q and q.split(".")[-1] == n.func.attr:
-                        for st in ast.walk(fn):
-                            if isinstance(st, ast.Return) and st.value is not None:
-                                out.append((q, st.value))
-                                out += _inline_helpers(scan, st.value, depth + 1)
-                        for st in ast.walk(fn):
-                            if isinstance(st, ast.Assign):
-                                out.append((q, st.value))
-    return out
+def _branches(expr):
+    """a conditional expression as [(conditions on the path, value)] — one decision tree whatever its nesting"""
+    if isinstance(expr, ast.IfExp):
+        return ([([(expr.test, True)] + c, v) for c, v in _branches(expr.body)] +
+                [([(expr.test, False)] + c, v) for c, v in _branches(expr.orelse)])
+    return [([], expr)]
 
 
-_DATA = {"sample", "self", "_", "i", "idx", "b", "filename", "slice_no", "key", "seed", "cls", "None", "True", "False", "name"}
+_TUPLE_FS = re.compile(r"^tuple\(map\(ord,str\(sample\['filename'\]\[(\w+)\]\)\+str\(sample\['slice_no'\]\[\1\]\)\)\)$")
+_TUPLE_SF = re.compile(r"^tuple\(map\(ord,str\(sample\['slice_no'\]\[(\w+)\]\)\+str\(sample\['filename'\]\[\1\]\)\)\)$")
 
 
 def seed_tables():
     """-> (Lean text of `seed_calls`, order of the tuple when it is the ord-concatenation else None, Lean term of the
     `seed is None` condition in terms of `use_seed` else None)"""
     scan = _Scan(SSL)
-    found = _seed_expr(scan)
     calls: list[str] = []
-    none_tests = []
-    tuple_def = None
-    for q, seed in found:
-        vals = []
-        if isinstance(seed, ast.IfExp):
-            if _txt(seed.body) == "None":
-                none_tests.append(("pos", seed.test))
-                vals.append(seed.orelse)
-            elif _txt(seed.orelse) == "None":
-                none_tests.append(("neg", seed.test))
-                vals.append(seed.body)
-            else:
-                vals += [seed.body, seed.orelse]
-        elif _txt(seed) != "None":
-            vals.append(seed)
-        for v in vals:
-            exprs = [v] + [e for _, e in _inline_helpers(scan, v)]
-            params = set()
-            for hq, _ in _inline_helpers(scan, v):
-                fn = scan.funcs[hq]
-                params |= {a.arg for a in fn.args.posonlyargs + fn.args.args + fn.args.kwonlyargs}
-                params |= {n.id for n in ast.walk(fn) if isinstance(n, ast.Name) and isinstance(n.ctx, ast.Store)}
-            for e in exprs:
-                for c in _callables(e, _DATA | params):
-                    if c not in calls and not c.startswith("self.") and not c.startswith("cls."):
+    orders, nones, other_values = set(), set(), 0
+    for q, seed in _seed_sites(scan):
+        for expr in _resolve(scan, q, seed):
+            for conds, v in _branches(expr):
+                if _txt(v) == "None":
+                    # under which polarity of `self.use_seed` is the seed None?
+                    pol = None
+                    if len(conds) == 1:
+                        t, taken = conds[0]
+                        tt = _txt(t)
+                        if tt in ("notself.use_seed", "self.use_seedisFalse", "self.use_seed==False"):
+                            pol = "(!use_seed)" if taken else "use_seed"
+                        elif tt in ("self.use_seed", "self.use_seedisTrue", "self.use_seed==True"):
+                            pol = "use_seed" if taken else "(!use_seed)"
+                    nones.add(pol)
+                    continue
+                for c in _callables(v):
+                    if c not in calls:
                         calls.append(c)
-            t = _txt(v)
-            for order, want in (("filename ++ slice", "tuple(map(ord,str(sample['filename'][_])+str(sample['slice_no'][_])))"),
-                                ("slice ++ filename", "tuple(map(ord,str(sample['slice_no'][_])+str(sample['filename'][_])))")):
-                if t == want:
-                    tuple_def = order
+                for t, _taken in conds:
+                    for c in _callables(t):
+                        if c not in calls:
+                            calls.append(c)
+                t = _txt(v)
+                if _TUPLE_FS.match(t):
+                    orders.add("filename ++ slice")
+                elif _TUPLE_SF.match(t):
+                    orders.add("slice ++ filename")
+                else:
+                    other_values += 1
     # the reduction inside `_gaussian_split` (what reaches libc `srand`)
     g = scan.funcs.get("MaskSplitter._gaussian_split")
     if g is not None:
@@ -378,19 +587,13 @@ def seed_tables():
             if isinstance(st, ast.Assign) and len(st.targets) == 1 and ast.unparse(st.targets[0]) == "seed":
                 if "np.random" in ast.unparse(st.value):
                     continue           # the unseeded branch (`seed is None`)
-                for c in _callables(st.value, _DATA):
+                for c in _callables(_inline(scan, st.value)):
                     if c not in calls:
                         calls.append(c)
-    tr_none = None
-    if len(none_tests) == 1:
-        pol, test = none_tests[0]
-        tt = _txt(test)
-        if tt == "notself.use_seed":
-            tr_none = "(!use_seed)" if pol == "pos" else "use_seed"
-        elif tt == "self.use_seed":
-            tr_none = "use_seed" if pol == "pos" else "(!use_seed)"
-    text = ("/-- translated from `MaskSplitter.forward` (helpers of the class inlined) and `_gaussian_split`: every callable the\n"
-            "per-sample seed derivation refers to -/\n"
+    tuple_def = next(iter(orders)) if len(orders) == 1 and other_values == 0 else None
+    tr_none = next(iter(nones)) if len(nones) == 1 and None not in nones else None
+    text = ("/-- translated from `MaskSplitter.forward` (private helpers inlined at their call sites) and `_gaussian_split`:\n"
+            "every callable the per-sample seed derivation uses -/\n"
             f"def seed_calls : List String := {_lstr(calls)}\n")
     return text, tuple_def, tr_none
 
